@@ -137,3 +137,45 @@ Lemma psd_diag_index_ok : stmt_psd_diag_index.
 Proof.
   intros n M k Hk. rewrite triangular_index_diag. rewrite svec_nth by lia. rewrite Nat.eqb_refl. reflexivity.
 Qed.
+
+(** ** scaled_unit_shift *)
+Lemma packed_unique c r c' r' : (r <= c)%nat -> (r' <= c')%nat -> (tri c + r = tri c' + r')%nat -> c = c' /\ r = r'.
+Proof.
+  intros Hr Hr' E.
+  destruct (Nat.lt_trichotomy c c') as [L|[L|L]].
+  - assert (tri (S c) <= tri c')%nat by (apply tri_mono; lia). rewrite tri_S in H. lia.
+  - subst. split; lia.
+  - assert (tri (S c') <= tri c)%nat by (apply tri_mono; lia). rewrite tri_S in H. lia.
+Qed.
+Lemma is_diag_spec n c r : (c < n)%nat -> (r <= c)%nat -> is_diag_index n (tri c + r) = Nat.eqb r c.
+Proof.
+  intros Hc Hr. unfold is_diag_index. destruct (Nat.eqb r c) eqn:E.
+  - apply Nat.eqb_eq in E. subst r. apply existsb_exists. exists c. split; [apply in_seq; lia|].
+    apply Nat.eqb_eq. rewrite triangular_index_diag. reflexivity.
+  - apply Nat.eqb_neq in E. apply not_true_is_false. intros H. apply existsb_exists in H.
+    destruct H as [k [Hk Hk2]]. apply Nat.eqb_eq in Hk2. rewrite triangular_index_diag in Hk2.
+    destruct (packed_unique c r k k Hr (Nat.le_refl k) Hk2). lia.
+Qed.
+Lemma nth_unit_shift n (z : list R) a i : (i < length z)%nat ->
+  nth i (psd_scaled_unit_shift OpsR n z a) 0
+  = if is_diag_index n i then nth i z 0 + a else nth i z 0.
+Proof.
+  intros Hi. unfold psd_scaled_unit_shift.
+  set (f := fun p : nat * R => if is_diag_index n (fst p) then add OpsR (snd p) a else snd p).
+  rewrite (nth_indep _ 0 (f (0%nat, 0))) by (rewrite map_length, combine_length, seq_length; lia).
+  rewrite map_nth. rewrite combine_nth by (rewrite seq_length; reflexivity).
+  rewrite seq_nth by exact Hi. unfold f. cbn [fst snd add OpsR Nat.add]. reflexivity.
+Qed.
+Lemma psd_unit_shift_mat_ok : stmt_psd_unit_shift_mat.
+Proof.
+  intros n z a i j Hl Hi Hj. unfold svec_to_mat. cbn zeta. cbn [zero mul OpsR].
+  set (lo := Nat.min i j). set (hi := Nat.max i j). fold (tri hi).
+  assert (Hhi : (hi < n)%nat) by (unfold hi; lia). assert (Hlo : (lo <= hi)%nat) by (unfold lo, hi; lia).
+  assert (Hidx : (tri hi + lo < length z)%nat).
+  { rewrite Hl. fold (tri n). assert (tri (S hi) <= tri n)%nat by (apply tri_mono; lia). rewrite tri_S in H. lia. }
+  rewrite nth_unit_shift by exact Hidx. rewrite is_diag_spec by assumption.
+  destruct (Nat.eqb i j) eqn:E.
+  - apply Nat.eqb_eq in E. subst j. unfold lo, hi. rewrite Nat.min_id, Nat.max_id, Nat.eqb_refl. reflexivity.
+  - apply Nat.eqb_neq in E. assert (Hne : Nat.eqb lo hi = false) by (apply Nat.eqb_neq; unfold lo, hi; lia).
+    rewrite Hne. lra.
+Qed.
